@@ -103,6 +103,13 @@ fn refc_debug(out: &mut dyn Write, path: &str) -> i32 {
 fn main() {
     let argv: Vec<String> = std::env::args().collect();
     cc::install_panic_hook();
+    if argv.get(1).map(|s| s.as_str()) == Some("worker-c16") {
+        std::process::exit(checks::c16::worker_main());
+    }
+    if argv.get(1).map(|s| s.as_str()) == Some("worker-c05") {
+        let opt = argv.get(3).and_then(|s| s.parse().ok()).unwrap_or(1u8);
+        std::process::exit(checks::c05::worker_main(&argv[2], opt));
+    }
     let mut out = if std::env::var("C03_DEBUG").is_ok() { std::fs::File::create("/dev/stdout").unwrap() } else { cc::silence_stdio() };
     let seed: u64 = std::env::var("VERIF_SEED").ok().and_then(|s| s.trim().parse::<i64>().ok()).map(|v| v as u64).unwrap_or(20260925);
     let mut tier = match std::env::var("VERIF_TIER").ok().as_deref() { Some("thorough") => report::Tier::Thorough, _ => report::Tier::Quick };
